@@ -222,6 +222,124 @@ def run_scenarios(job):
     return rec
 
 
+SIG_SCM = "scm-switch-before-invalidate"
+
+
+def run_scm_scenario(job):
+    """worker: fixed scenario with a deterministic SCM-only checkout (git, commit pinned): the recipe edit replaces
+    the SCM of directory `sub` (variant "switch": other git repository, switched in place; variant "attic": an
+    import SCM, the old directory is moved to the attic); Bob is killed at the k-th state update of that
+    invocation, for every k; the recipe edit is reverted; the follow-up invocation must finish and yield the
+    from-scratch result of the original recipe."""
+    import json
+    import subprocess
+    from gen import buildsim as bs
+    variant = job["scm"]
+    rec = {"key": job["key"], "scm": variant, "cases": [], "truncated": False, "skip": None}
+    if shutil.which("git") is None:
+        rec["skip"] = "git not available"
+        return rec
+    if time.time() > job["deadline"]:
+        rec["truncated"] = True
+        return rec
+    base = os.path.join(job["tmp"], "scm-" + variant)
+    shutil.rmtree(base, ignore_errors=True)
+    W, saved = os.path.join(base, "w"), os.path.join(base, "saved")
+    try:
+        shas = {}
+        env = dict(os.environ, GIT_CONFIG_GLOBAL=os.devnull, GIT_CONFIG_SYSTEM=os.devnull)
+        for name in ("A", "B"):
+            d = os.path.join(base, "git", name)
+            os.makedirs(d)
+            for cmd in (["git", "init", "-q", "-b", "main", "."], ["git", "add", "f.txt"],
+                        ["git", "-c", "user.name=t", "-c", "user.email=t@example.org", "commit", "-q", "-m", "c"]):
+                if cmd[1] == "add":
+                    with open(os.path.join(d, "f.txt"), "w") as f:
+                        f.write("content-%s\n" % name)
+                subprocess.run(cmd, cwd=d, check=True, env=env, stdout=subprocess.DEVNULL, stderr=subprocess.DEVNULL)
+            shas[name] = subprocess.run(["git", "rev-parse", "HEAD"], cwd=d, check=True, env=env,
+                                        stdout=subprocess.PIPE).stdout.decode().strip()
+
+        def write(root, which):
+            os.makedirs(os.path.join(root, "recipes"), exist_ok=True)
+            os.makedirs(os.path.join(root, "imp"), exist_ok=True)
+            with open(os.path.join(root, "imp", "f.txt"), "w") as f:
+                f.write("content-imported\n")
+            with open(os.path.join(root, "config.yaml"), "w") as f:
+                f.write('{"bobMinimumVersion": "0.24"}')
+            if which in ("A", "B"):
+                scm = {"scm": "git", "url": os.path.join(base, "git", which), "commit": shas[which], "dir": "sub"}
+            else:
+                scm = {"scm": "import", "url": "imp", "dir": "sub", "prune": True}
+            with open(os.path.join(root, "recipes", "p0.yaml"), "w") as f:
+                f.write(json.dumps({"root": True, "checkoutSCM": scm, "buildScript": "cp $1/sub/f.txt m\n",
+                                    "packageScript": "cp $1/m m\n"}))
+        other = "B" if variant == "switch" else "imp"
+        sim = bs.Sim(W, job["repo"], job["deadline"] + 5)
+        write(W, "A")
+        r0 = sim.invoke(True, ["p0"])
+        if r0["rc"] != 0:
+            rec["skip"] = "initial build failed: %s" % r0["error"]
+            return rec
+        want = bs.snapshot(os.path.join(W, "dev/dist/p0/1/workspace"))
+        shutil.copytree(W, saved, symlinks=True)
+        for k in range(1, job.get("max_k", 40) + 1):
+            if time.time() > job["deadline"]:
+                rec["truncated"] = True
+                break
+            shutil.rmtree(W, ignore_errors=True)
+            shutil.copytree(saved, W, symlinks=True)
+            write(W, other)
+            ra = sim.invoke(True, ["p0"], abort_at=k)
+            if ra["rc"] != "abort":
+                break   # the invocation has fewer than k state updates
+            sim.remove_lock()
+            write(W, "A")
+            rf = sim.invoke(True, ["p0"])
+            got = bs.snapshot(os.path.join(W, "dev/dist/p0/1/workspace"))
+            attic = os.path.join(W, "dev/src/p0/1/attic")
+            rec["cases"].append({"k": k, "aborted_before": ra.get("aborted_before", [None])[:2], "rc": rf["rc"],
+                                 "error": rf["error"], "same": got == want, "got": got,
+                                 "attic": sorted(os.listdir(attic)) if os.path.isdir(attic) else [],
+                                 "tail": rf["stdout"][-800:] if (rf["rc"] != 0 or got != want) else ""})
+    except bs.OutOfTime:
+        rec["truncated"] = True
+    except subprocess.CalledProcessError as e:
+        rec["skip"] = "git failed: %s" % e
+    finally:
+        bs.shutdown_servers()
+        if not job.get("keep"):
+            shutil.rmtree(base, ignore_errors=True)
+    return rec
+
+
+def judge_scm(ctx, rec):
+    if rec.get("skip"):
+        ctx.skip("scm switch scenario: " + rec["skip"])
+        return
+    for c in rec["cases"]:
+        case = {"key": rec["key"], "scm": rec["scm"], "k": c["k"], "aborted_before": c["aborted_before"]}
+        ctx.case(("scm", rec["scm"], c["k"]), sample=dict(case, rc=c["rc"], same=c["same"]))
+        ctx.count("scm_switch_cut_before", "%s:%s" % (rec["scm"], c["aborted_before"][0]))
+        if not isinstance(c["rc"], int):
+            ctx.count("scenario", "no-verdict:%s" % c["rc"])
+            continue
+        if c["rc"] != 0:
+            ctx.violation("SCM of a checkout directory replaced (%s), Bob killed before %s, edit reverted: the follow-up "
+                          "invocation fails (%s)" % (rec["scm"], c["aborted_before"], c["error"]), dict(case, tail=c["tail"]),
+                          SIG_SCM)
+        elif not c["same"]:
+            ctx.violation("SCM of a checkout directory replaced (%s), Bob killed before %s, edit reverted: the checkout is "
+                          "treated as up to date and the package result is built from the wrong sources: %r"
+                          % (rec["scm"], c["aborted_before"], c["got"]), dict(case, tail=c["tail"]), SIG_SCM)
+        else:
+            ctx.count("scenario", "scm-compared")
+
+
+def run_job(job):
+    return run_scm_scenario(job) if job.get("scm") else run_scenarios(job)
+
+
 def _signature(sc):
     """a specific name for the way the workspace was poisoned"""
     for inv in sc["invs"][:-1]:
@@ -288,8 +406,13 @@ _CACHE = {}
 def oracle(ctx):
     n = ctx.scale(32, 400)
     jobs = _jobs(ctx, n, "abort", 0.55, max_plans=ctx.scale(14, 0), n_chains=ctx.scale(2, 6))
-    recs = ctx.parallel(run_scenarios, jobs)
+    scm_jobs = [dict(repo=ctx.repo, tmp=ctx.tmp, key="%s-%d-scm-%s" % (ctx.prop, ctx.seed, v), scm=v,
+                     deadline=jobs[0]["deadline"], max_k=ctx.scale(12, 40)) for v in ("switch", "attic")]
+    recs = ctx.parallel(run_job, scm_jobs + jobs)
+    scm_recs, recs = recs[:len(scm_jobs)], recs[len(scm_jobs):]
     _CACHE["recs"] = recs
+    for rec in scm_recs:
+        judge_scm(ctx, rec)
     for rec in recs:
         rec["n_prefix"] = None
         judge(ctx, rec)
@@ -353,6 +476,12 @@ def correspond(ctx):
 
 
 def replay(ctx, case):
+    if case.get("scm"):
+        rec = run_scm_scenario(dict(repo=ctx.repo, tmp=ctx.tmp, key=case["key"], scm=case["scm"],
+                                    deadline=time.time() + 900, max_k=40))
+        rec["cases"] = [c for c in rec["cases"] if c["k"] == case["k"]]
+        judge_scm(ctx, rec)
+        return
     job = dict(repo=ctx.repo, tmp=ctx.tmp, key=case["key"], n_prefix=int(case["key"].rsplit("-", 1)[1]) % 3,
                deadline=time.time() + 900, max_plans=0, n_chains=case.get("n_chains", 2), kinds=case.get("kinds"),
                only_plan=case["plan"])
